@@ -209,19 +209,29 @@ def main(chk):
     L, W, out = cfg['L'], cfg['W'], case['out']
     if out == 0:
       continue
-    x = ints((2, L, 3), -4, 5)
-    key = f"C12:pool:L={L}:W={W}:s={cfg['s']}:{cfg['mode']}"
-    chk.count(key)
-    for name, fn, red in (('max_pool', nn.max_pool, np.max), ('min_pool', pooling.min_pool, np.min)):
-      y = np.asarray(fn(jnp.asarray(x), (W,), strides=(cfg['s'],), padding=cfg['mode']))
-      exp = np.stack([red(x[:, case['win'][o], :], axis=1) for o in range(out)], axis=1)
-      if y.shape != exp.shape or not np.array_equal(y, exp):
-        chk.violation(key + ':' + name, f'{name} differs from the window reduction', case)
-    for cip in (True, False):
-      y = np.asarray(nn.avg_pool(jnp.asarray(x), (W,), strides=(cfg['s'],), padding=cfg['mode'], count_include_pad=cip))
-      exp = np.stack([x[:, case['win'][o], :].sum(axis=1) / (W if cip else len(case['win'][o])) for o in range(out)], axis=1)
-      if y.shape != exp.shape or not np.allclose(y, exp, rtol=1e-6, atol=1e-6):
-        chk.violation(key + f':avg_pool:count_include_pad={cip}', 'avg_pool differs from the window mean', case)
+    x0 = ints((2, 2, L, 3), -4, 5)
+    # renderings: the padding as the mode string or as the explicit (low, high) pair it stands for; 0, 1 or 2 batch dimensions
+    total = max((out - 1) * cfg['s'] + W - L, 0) if cfg['mode'] == 'SAME' else 0
+    pads = {'string': cfg['mode'], 'pairs': ((total // 2, total - total // 2),)}
+    for pform, padding in pads.items():
+      for nb in (1, 0, 2):
+        xin = {0: x0[0, 0], 1: x0[0], 2: x0}[nb]
+        x = xin.reshape((-1, L, 3))
+        key = f"C12:pool:L={L}:W={W}:s={cfg['s']}:{cfg['mode']}" + ('' if (pform, nb) == ('string', 1) else f':padding-as-{pform}:batch-dims={nb}')
+        chk.count(key)
+        try:
+          for name, fn, red in (('max_pool', nn.max_pool, np.max), ('min_pool', pooling.min_pool, np.min)):
+            y = np.asarray(fn(jnp.asarray(xin), (W,), strides=(cfg['s'],), padding=padding))
+            exp = np.stack([red(x[:, case['win'][o], :], axis=1) for o in range(out)], axis=1).reshape(xin.shape[:-2] + (out, 3))
+            if y.shape != exp.shape or not np.array_equal(y, exp):
+              chk.violation(key + ':' + name, f'{name} differs from the window reduction', case)
+          for cip in (True, False):
+            y = np.asarray(nn.avg_pool(jnp.asarray(xin), (W,), strides=(cfg['s'],), padding=padding, count_include_pad=cip))
+            exp = np.stack([x[:, case['win'][o], :].sum(axis=1) / (W if cip else len(case['win'][o])) for o in range(out)], axis=1).reshape(xin.shape[:-2] + (out, 3))
+            if y.shape != exp.shape or not np.allclose(y, exp, rtol=1e-6, atol=1e-6):
+              chk.violation(key + f':avg_pool:count_include_pad={cip}', 'avg_pool differs from the window mean', case)
+        except Exception as e:
+          chk.violation(key, f'raised {type(e).__name__}: {str(e)[:160]}', case)
 
   # ------------------------------------------------------------------------------------------------ normalisation
   rn = tlc.require_ok(tlc.run('LayerIndex', 'LayerIndex_norm.cfg', workers=1, timeout=900), 'LayerIndex norm')
